@@ -483,6 +483,10 @@ def reserved_domains(full=False):
             out.append(p + s)
     for s in sufs[:40]:
         out.append(s + b'.')       # root dot forms (outside the property, still compared with the model)
+    # every reserved name in every letter-case pattern with the root dot, bare and behind labels (absolute names take their own path in the code)
+    for r in RESERVED:
+        for v in case_variants(r) + [r.upper(), r.title(), r[:-1] + r[-1:].upper()]:
+            out += [v + b'.', b'b.' + v + b'.', b'mail.b.' + v + b'.']
     return out
 
 # ------------------------------------------------------------------ facade histories
